@@ -643,21 +643,20 @@ func fileInfoSpec(name string, size int64, mode os.FileMode, dir bool, mt time.T
 	return sfs.NewFileInfo(path.Base(name), size, mode, mt, mt, mt, os.Getgid(), os.Getuid(), dir, nil)
 }
 
-type rsc struct{ *bytes.Reader }
-
-func (rsc) Close() error { return nil }
-
+// source reader with a fault seam; deliberately no WriterTo so that every read passes through Read
 type faultRSC struct {
-	rsc
+	r  *bytes.Reader
 	sm *seams
 }
 
-func (f faultRSC) Read(p []byte) (int, error) {
+func (f *faultRSC) Read(p []byte) (int, error) {
 	if f.sm.hit("src-read") {
 		return 0, errInjected
 	}
-	return f.rsc.Read(p)
+	return f.r.Read(p)
 }
+func (f *faultRSC) Seek(o int64, w int) (int64, error) { return f.r.Seek(o, w) }
+func (f *faultRSC) Close() error                        { return nil }
 
 func (r *runner) srcOf(files []FileSpec) func() (config.FileConfig, error) {
 	i := 0
@@ -675,7 +674,7 @@ func (r *runner) srcOf(files []FileSpec) func() (config.FileConfig, error) {
 		data := r.blob(fsp.Blob)
 		hdr := &tar.Header{Typeflag: tar.TypeReg, Name: fsp.Path, Mode: int64(fsp.Mode), Size: int64(len(data)), ModTime: now, Uid: os.Getuid(), Gid: os.Getgid()}
 		return config.FileConfig{
-			GetFile: func() (io.ReadSeekCloser, error) { return faultRSC{rsc{bytes.NewReader(data)}, r.in.sm}, nil },
+			GetFile: func() (io.ReadSeekCloser, error) { return &faultRSC{bytes.NewReader(data), r.in.sm}, nil },
 			Info:    hdr.FileInfo(), Path: fsp.Path}, nil
 	}
 }
@@ -944,6 +943,18 @@ func (r *runner) exec(c Call) (ret map[string]interface{}, err error) {
 					return signature.VerifyHeader(h, reg, r.in.pipes.Signature, r.in.rcrypt.Recipient)
 				}, nil)
 			r.in.bc.CloseReader()
+		}
+	case "ro_switch": // continue with a read-only instance over the same drive and index (flag: without write backend)
+		cfg := r.h.Config
+		cfg.ReadOnly = true
+		cfg.NoWriteOp = c.Bool
+		var in2 *inst
+		in2, err = mk(cfg, r.in.drive, r.in.meta, r.dir, r.ks, &seams{})
+		if err == nil {
+			r.in = in2
+			var root string
+			root, err = in2.s.Initialize(rootOf(r.h.Config), os.ModePerm)
+			ret["root"] = root
 		}
 	case "truncdrive": // cut the drive file to Off bytes (crash simulation)
 		err = os.Truncate(r.in.drive, c.Off)
